@@ -22,7 +22,12 @@ RULE = ("files from the C11 generator restricted to option sets that always reco
         "with further accesses - each handle must show the event the model assigns to its access path; search only: "
         "HDF5Reader.get_waveforms(event_id, antenna_id, waveform_type) as one more access path, ONE reader object "
         "opened again after each append session ('a' / 'r+') while the file grows, FileGenerator given a bare file "
-        "name, FileGenerator.count after the count setter; a case is one "
+        "name, FileGenerator.count after the count setter; FileGenerator file lists in the CALLER's order with names "
+        "that are not in lexicographic order (run_8..run_11, reversed letters, different directories, glob "
+        "characters, a file listed twice); LOOK-UP tables written with create_analysis_dataset and indexed out of "
+        "event order with add_analysis_indices (shared rows, cells pointing back, overlapping ranges, an early event "
+        "reaching further than all later ones, zero cells) read through event.get_data under iteration for every "
+        "slice_range and under slices, against the model (`lk`/`lki`) and against f[i] / slice_range=1; a case is one "
         "request (or one session) on one file; "
         "distinct = distinct (file, request) pairs")
 LEVEL_TEXT = ("machine-checked Lean 4 theorems, for files of any length written by any add / reject / reopen history: "
@@ -172,10 +177,55 @@ def _live_job(job, col, d):
     os.remove(b.fn)
 
 
+def lookup_paths(rng, n, k):
+    """access paths of a look-up file: iteration for every slice_range, and k in-claim slices"""
+    paths = [("iter", sr) for sr in list(range(1, n + 2)) + [None]]
+    space = [(sr, a, b, c) for sr in sr_set(n) for (a, b, c) in in_claim(n)]
+    for sr, a, b, c in (rng.sample(space, k) if len(space) > k else space):
+        paths.append(("slice", sr, a, b, c))
+    return paths
+
+
+def _lookup_job(job, col, d):
+    """a look-up table indexed OUT OF EVENT ORDER with add_analysis_indices, read through the event handles
+    under chunked iteration / slices: the model (`loadTable` on arbitrary cells) against the real reader"""
+    from pyrex.io import File
+    spec, n, cells, nrows = job["spec"], job["n"], [tuple(c) for c in job["cells"]], job["nrows"]
+    fn = os.path.join(d, "lk.h5")
+    H.write_file(spec, fn)
+    H.add_lookup(fn, spec, cells, nrows)
+    rng = random.Random(job["seed"])
+    head = "%d %d %s" % (nrows, n, " ".join("%d %d" % c for c in cells))
+    reqs, real = [], []
+    for path in lookup_paths(rng, n, job["nslices"]):
+        if path[0] == "iter":
+            with File(fn, "r", slice_range=path[1]) as f:
+                real.append(H.lookup_reply(*H.lookup_drain(lambda: iter(f))))
+            reqs.append("lki %s %s" % (head, H.tok(path[1])))
+        else:
+            _, sr, a, b, c = path
+            with File(fn, "r", slice_range=sr) as f:
+                real.append(H.lookup_reply(*H.lookup_drain(lambda: f[a:b:c])))
+            reqs.append("lk %s %s %s %s %s" % (head, H.tok(sr), H.tok(a), H.tok(b), H.tok(c)))
+    col.count("lookup_files")
+    col.count("lookup_cells_" + job["cellkind"])
+    if any(s2 < s1 for (s1, _), (s2, _) in zip(cells, cells[1:])):
+        col.count("lookup_files_with_decreasing_starts")
+    os.remove(fn)
+    for rq, rl, rp in zip(reqs, real, fw.run_driver("C12", reqs)):
+        col.case(("lookup", rq), nontrivial=True, sample={"request": rq[:200], "model": rp[:120]})
+        if rp.strip() == rl.strip():
+            col.traces += 1
+        else:
+            col.note_broken("correspondence: request `%s` model `%s` implementation `%s`" % (rq[:400], rp[:300], rl[:300]))
+
+
 def _job(job, col, d):
     kind = job["kind"]
     if kind == "live":
         return _live_job(job, col, d)
+    if kind == "lookup":
+        return _lookup_job(job, col, d)
     batch = H.Batch("C12", col)
     if kind == "base":
         spec, n = job["spec"], job["n"]
@@ -252,17 +302,62 @@ def _job(job, col, d):
                                 "session %r" % (H.file_line(spec)[:500], raw, answers[0][2]))
             col.traces += 1
     elif kind == "fg":
-        builts = [H.write_file(spec, os.path.join(d, "g%d.h5" % j)) for j, spec in enumerate(job["specs"])]
+        builts, specs = fg_write(job, d)
         files = [b.fn for b in builts]
         col.count("fg_lists_of_%d" % len(files))
+        col.count("fg_naming_" + job.get("layout", {}).get("scheme", "plain"))
+        if sorted(files) != files:
+            col.count("fg_lists_not_in_lexicographic_order")
+        if len(set(files)) < len(files):
+            col.count("fg_lists_with_a_file_twice")
         for sr in job["srs"]:
             real = H.real_fg(files, sr)
-            batch.add("fg", "fg %d %d %s" % (sr, len(files), " ".join(H.file_line(s) for s in job["specs"])),
+            batch.add("fg", "fg %d %d %s" % (sr, len(files), " ".join(H.file_line(s) for s in specs)),
                       builts, real)
             col.count("fg_runs")
             col.count("fg_events", len(real[1]))
     col.extra["access_paths"] = len(batch)
     batch.flush()
+
+
+NAME_SCHEMES = {
+    # caller's order differs from the lexicographic order of the names
+    "numeric": ["run_8.h5", "run_9.h5", "run_10.h5", "run_11.h5"],
+    "reversed": ["c.h5", "b.h5", "a.h5", "Z.h5"],
+    "dirs": ["z/first.h5", "a/second.h5", "m/a/third.h5", "a/b.h5"],
+    "glob": ["ev[1].h5", "ev[0].h5", "x?y.h5", "s*t.h5"],
+    "mixed": ["run_10.h5", "z/run_2.h5", "ev[3].hdf5", "b.h5"],
+}
+
+
+def gen_fg_layout(rng, nspecs):
+    """file names and the order in which the caller lists the files (a file may be listed twice)"""
+    scheme = rng.choice(sorted(NAME_SCHEMES))
+    names = NAME_SCHEMES[scheme][:nspecs]
+    order = list(range(nspecs))
+    r = rng.random()
+    if r < 0.3:
+        order.reverse()
+    elif r < 0.6:
+        rng.shuffle(order)
+    if rng.random() < 0.3:
+        order.insert(rng.randint(0, len(order)), rng.randrange(nspecs))      # [a, b, a]
+    listed = [names[i] for i in order]
+    if len(listed) > 1 and sorted(listed) == listed:
+        order.reverse()
+    return {"scheme": scheme, "names": names, "order": order}
+
+
+def fg_write(job, d):
+    """write the files of an fg job under the names of its layout -> (builts, specs) in the caller's order"""
+    lay = job.get("layout") or {"names": ["g%d.h5" % j for j in range(len(job["specs"]))],
+                                "order": list(range(len(job["specs"])))}
+    builts = []
+    for j, spec in enumerate(job["specs"]):
+        fn = os.path.join(d, lay["names"][j])
+        os.makedirs(os.path.dirname(fn), exist_ok=True)
+        builts.append(H.write_file(spec, fn))
+    return [builts[i] for i in lay["order"]], [job["specs"][i] for i in lay["order"]]
 
 
 def gen_fg_specs(rng, deep=False):
@@ -283,7 +378,7 @@ def gen_split(rng):
 
 def correspondence(run):
     nmax = run.scale(6, 12)
-    ns = list(range(1, nmax + 1)) + [run.rng.randint(2, nmax) for _ in range(run.scale(4, 4))]
+    ns = list(range(1, nmax + 1)) + [run.rng.randint(2, nmax) for _ in range(run.scale(2, 4))]
     jobs = []
     with H.tempdir() as d:
         files = make_files(run, ns, d)
@@ -293,6 +388,8 @@ def correspondence(run):
         srs = sr_set(n)
         if run.thorough():
             srs = run.rng.sample(srs, min(2, len(srs)))
+        elif n >= 5:
+            srs = [x for x in srs if x != n + 1]      # None (= n) already stands for "one chunk"; keeps quick < 2 min
         srs_used.setdefault(n, []).append([H.tok(s) for s in srs])
         for sr in srs:
             jobs.append({"kind": "slices", "spec": spec, "n": n, "sr": sr, "nmax": nmax})
@@ -301,10 +398,17 @@ def correspondence(run):
             jobs.append({"kind": "live", "spec": spec, "n": n, "seed": run.rng.getrandbits(32),
                          "srs": run.rng.choice([[None], [2], [None, 1], [3, None], [1, 2]]),
                          "scripts": run.scale(6, 25), "length": 24})
+    for n, spec in files[:run.scale(8, 16)]:
+        if n >= 2:
+            nrows = run.rng.randint(2, 8)
+            ck, cells = H.gen_cells(run.rng, n, nrows)
+            jobs.append({"kind": "lookup", "spec": spec, "n": n, "cells": cells, "nrows": nrows, "cellkind": ck,
+                         "seed": run.rng.getrandbits(32), "nslices": run.scale(40, 150)})
     for _ in range(run.scale(12, 120)):
         jobs.append(gen_split(run.rng))
     for _ in range(run.scale(10, 100)):
-        jobs.append({"kind": "fg", "specs": gen_fg_specs(run.rng), "srs": [1, 2, 3, 100]})
+        sp = gen_fg_specs(run.rng)
+        jobs.append({"kind": "fg", "specs": sp, "srs": [1, 2, 3, 100], "layout": gen_fg_layout(run.rng, len(sp))})
     # heavy jobs first so that the pool is balanced; results are merged in this (deterministic) order
     jobs.sort(key=lambda j: -(j.get("n", 3) ** 3 if j["kind"] == "slices" else 20))
     H.run_jobs(run, _job, jobs)
@@ -453,9 +557,12 @@ def oracle_split(base, variants, d):
     return None
 
 
-def oracle_fg(specs, srs, d):
+def oracle_fg(specs, srs, d, layout=None):
+    """the replayed stream must be the concatenation of the sequential passes over the files IN THE ORDER
+    THE CALLER LISTED THEM (whatever their names: numeric suffixes, directories, glob characters, a file
+    listed twice), for every slice_range"""
     import h5py
-    builts = [H.write_file(spec, os.path.join(d, "q%d.h5" % j)) for j, spec in enumerate(specs)]
+    builts, specs = fg_write({"specs": specs, "layout": layout}, d)
     want, ends = [], []
     total = 0
     for b in builts:
@@ -528,6 +635,43 @@ def fg_count_setter(files, sr, counts):
     return None
 
 
+def oracle_lookup(spec, n, cells, nrows, seed, nslices, d):
+    """a table whose rows are referenced out of event order: what every event shows under chunked
+    iteration (every slice_range) and under slices must equal f[i] and the slice_range=1 pass
+    (and the rows its own cell names)"""
+    from pyrex.io import File
+    fn = os.path.join(d, "lko.h5")
+    cells = [tuple(c) for c in cells]
+    H.write_file(spec, fn)
+    H.add_lookup(fn, spec, cells, nrows)
+    try:
+        want = [tuple(range(s, s + ln)) for s, ln in cells]
+        with File(fn, "r") as f:
+            single = [H.lookup_rows(f[i]) for i in range(n)]
+        with File(fn, "r", slice_range=1) as f:
+            err, one = H.lookup_drain(lambda: iter(f))
+        if single != want or err != "stop" or one != want:
+            return ("f[i] / slice_range=1 do not show the rows the index cells name", (single, err, one), want)
+        rng = random.Random(seed)
+        for path in lookup_paths(rng, n, nslices):
+            if path[0] == "iter":
+                with File(fn, "r", slice_range=path[1]) as f:
+                    err, got = H.lookup_drain(lambda: iter(f))
+                exp = want
+            else:
+                _, sr, a, b, c = path
+                with File(fn, "r", slice_range=sr) as f:
+                    err, got = H.lookup_drain(lambda: f[a:b:c])
+                exp = want[a:b:c]
+            if err != "stop" or got != exp:
+                return ("%r on a look-up table with cells %r differs from f[i] / slice_range=1" % (path, cells),
+                        (err, got), exp)
+        return None
+    finally:
+        if os.path.exists(fn):
+            os.remove(fn)
+
+
 def oracle_live(spec, n, srs, seed, nscripts, length, d):
     """several handles of open readers alive at once, examined later and out of order: every handle must
     keep showing the event of ONE sequential pass that its access path designates; distinct iterators
@@ -566,7 +710,10 @@ def oracle_live(spec, n, srs, seed, nscripts, length, d):
 
 def _search_job(job, col, d):
     kind = job["kind"]
-    if kind == "live":
+    if kind == "lookup":
+        res = oracle_lookup(job["spec"], job["n"], job["cells"], job["nrows"], job["seed"], job["nslices"], d)
+        col.case(("oracle-lookup", job["cells"], job["seed"]))
+    elif kind == "live":
         res = oracle_live(job["spec"], job["n"], job["srs"], job["seed"], job["scripts"], job["length"], d)
         col.case(("oracle-live", H.describe(job["spec"]), job["seed"]))
     elif kind == "access":
@@ -582,7 +729,7 @@ def _search_job(job, col, d):
                 if res:
                     break
     else:
-        res = oracle_fg(job["specs"], job["srs"], d)
+        res = oracle_fg(job["specs"], job["srs"], d, job.get("layout"))
         col.case(("oracle-fg", [H.describe(s) for s in job["specs"]]))
     col.count("oracle_" + kind)
     if res:
@@ -604,15 +751,39 @@ def search(run, deep):
             jobs.append({"kind": "access", "spec": spec, "n": n, "seed": run.rng.getrandbits(32),
                          "nslices": 1500 if deep else 150})
         if n >= 2:
+            nrows = run.rng.randint(2, 8)
+            ck, cells = H.gen_cells(run.rng, n, nrows)
+            jobs.append({"kind": "lookup", "spec": spec, "n": n, "cells": cells, "nrows": nrows, "cellkind": ck,
+                         "seed": run.rng.getrandbits(32), "nslices": 300 if deep else 40})
             jobs.append({"kind": "live", "spec": spec, "n": n, "seed": run.rng.getrandbits(32),
                          "srs": run.rng.choice([[None], [2], [None, 1], [3, None]]),
                          "scripts": 40 if deep else 8, "length": 24})
     for _ in range(120 if deep else 6):
         j = gen_split(run.rng)
         jobs.append(j)
-    for _ in range(100 if deep else 5):
-        jobs.append({"kind": "fg", "specs": gen_fg_specs(run.rng), "srs": [1, 2, 3, 100]})
+    for _ in range(100 if deep else 8):
+        sp = gen_fg_specs(run.rng)
+        jobs.append({"kind": "fg", "specs": sp, "srs": [1, 2, 3, 100], "layout": gen_fg_layout(run.rng, len(sp))})
     H.run_jobs(run, _search_job, jobs)
+
+
+F20_CELLS = [(0, 5), (3, 1), (1, 2), (4, 1), (0, 1)]
+
+
+def corpus(run):
+    """regression: the minimal input of F20 (4e94c15) - an early event reaching further than the event with
+    the largest start, chunks of two / stride two"""
+    spec = H.gen_spec(random.Random(20), always=True, n_ok=5, nfaults=0, p_reopen=0.0, w="110000")
+    with H.tempdir() as d:
+        res = oracle_lookup(spec, 5, F20_CELLS, 6, 20, 400, d)
+    run.case(("corpus", "F20_block_end"))
+    run.count("corpus_cases")
+    if res:
+        run.fail_input("lookup", {"kind": "lookup", "spec": spec, "n": 5, "cells": F20_CELLS, "nrows": 6, "seed": 20,
+                                  "nslices": 400, "desc": "F20 minimal input"},
+                       observed=res[1], expected=res[2], what="regression corpus F20: " + res[0])
+        return False
+    return True
 
 
 def replay(run, data):
